@@ -27,9 +27,9 @@ pub enum Case {
 pub const DEF: PropDef = PropDef {
     id: "C20",
     rule: "Monotonicity: for every code x parameter (zeta 1..=16,24,32,48,63; pi/exp-Golomb/Rice 0..=16,24,32,48,63; Golomb and minimal binary \
-moduli 1..=64 and sampled large) the library length of v (through every length entry point: len_*, len_*_param::<true|false>, ...) is <= that of v+1 for every v below 2^16 (quick) / 2^21 (thorough), around every power \
+moduli 1..=64 and sampled large) the library length of v (through every length entry point: len_*, len_*_param::<true|false>, ...) is <= that of v+1 for every v below 2^16 (quick) / 2^22 (thorough), around every power \
 of two up to 2^64-2, and for seeded random pairs a <= b. Kraft: exact integer arithmetic (carry propagation over the histogram of lengths) of \
-sum_{n<N} 2^-len(n) <= 1 for N = 2^16 / 2^21 (partial sums are non-decreasing in N), and over the full 64-bit domain for the universal codes via \
+sum_{n<N} 2^-len(n) <= 1 for N = 2^16 / 2^22 (partial sums are non-decreasing in N), and over the full 64-bit domain for the universal codes via \
 brackets of constant length found by an independent bisection on the library length function and validated by random probes inside each \
 bracket. Iterator: FindChangePoints on every library length function and on synthetic monotone step functions with arbitrary sorted step \
 positions (0..=12 steps from {small, 2^i+-1, random, beyond 2^63}, constant functions included): the first item is (0, f(0)); positions \
@@ -403,7 +403,7 @@ fn universal(code: Code) -> bool {
 
 fn run(ctx: &Ctx, env: &Env) -> Stats {
     let mut jobs: Vec<Job> = vec![];
-    let top: u64 = ctx.t(1 << 16, 1 << 21);
+    let top: u64 = ctx.t(1 << 16, 1 << 22);
     let codes = code_list(ctx);
     for (ci, chunk) in codes.chunks(8).enumerate() {
         let chunk = chunk.to_vec();
